@@ -179,3 +179,65 @@ pub fn d_r(_t: bool) -> Vec<R> {
     let s = |x: &str| x.to_string();
     vec![R { id: 0, name: s("") }, R { id: 1, name: s("r") }, R { id: 2, name: s("r") }, R { id: 1, name: s("r|1") }, R { id: 12, name: s("|") }, R { id: 1, name: s("2") }]
 }
+
+pub fn d_i8(_t: bool) -> Vec<i8> {
+    vec![0, 1, -1, 12, -12, 2, 127, -128]
+}
+pub fn d_u16(_t: bool) -> Vec<u16> {
+    vec![0, 1, 12, 123, 23, 3, 65535]
+}
+pub fn d_u32(_t: bool) -> Vec<u32> {
+    vec![0, 1, 2, 12, 23, 123, 3]
+}
+pub fn d_i64(_t: bool) -> Vec<i64> {
+    vec![0, 1, -1, 12, -12, 123, i64::MIN]
+}
+pub fn d_u128(_t: bool) -> Vec<u128> {
+    vec![0, 1, 12, 2, 123, u128::MAX]
+}
+pub fn d_usize(_t: bool) -> Vec<usize> {
+    vec![0, 1, 12, 2, 21]
+}
+pub fn d_isize(_t: bool) -> Vec<isize> {
+    vec![0, 1, -1, 12, -12, 2]
+}
+pub fn d_f32(_t: bool) -> Vec<f32> {
+    vec![0.0, 1.0, 1.5, 10.0, 0.1, -1.0, f32::INFINITY]
+}
+pub fn d_triple(_t: bool) -> Vec<(u8, u8, u8)> {
+    vec![(0, 0, 0), (1, 2, 3), (12, 3, 1), (1, 23, 1), (1, 2, 31), (12, 31, 0)]
+}
+pub fn d_quint(_t: bool) -> Vec<(u8, u8, u8, u8, u8)> {
+    let mut v = Vec::new();
+    for a in [1u8, 12] {
+        for b in [2u8, 21] {
+            for c in [1u8, 2] {
+                for d in [1u8, 12] {
+                    for e in [1u8, 2, 21] {
+                        v.push((a, b, c, d, e));
+                    }
+                }
+            }
+        }
+    }
+    v
+}
+pub fn d_vec_vec(_t: bool) -> Vec<Vec<Vec<u8>>> {
+    vec![vec![], vec![vec![]], vec![vec![], vec![]], vec![vec![1]], vec![vec![1], vec![2]], vec![vec![1, 2]], vec![vec![12]], vec![vec![1], vec![]], vec![vec![], vec![1]]]
+}
+pub fn d_opt_opt(_t: bool) -> Vec<Option<Option<u8>>> {
+    vec![None, Some(None), Some(Some(0)), Some(Some(1)), Some(Some(12))]
+}
+pub fn d_vec_pair(_t: bool) -> Vec<Vec<(u8, u8)>> {
+    vec![vec![], vec![(1, 2)], vec![(12, 3)], vec![(1, 23)], vec![(1, 2), (3, 4)], vec![(1, 2), (34, 0)], vec![(12, 3), (4, 0)]]
+}
+pub fn d_opt_spair(_t: bool) -> Vec<Option<(String, u8)>> {
+    let s = |x: &str| x.to_string();
+    vec![None, Some((s(""), 0)), Some((s("a"), 1)), Some((s("a\", 1"), 1)), Some((s("None"), 0)), Some((s("a"), 12)), Some((s("a1"), 2))]
+}
+pub fn d_cb(_t: bool) -> Vec<(char, bool)> {
+    vec![('a', true), ('a', false), ('|', true), ('\'', false), ('"', true), (',', false), (' ', true)]
+}
+pub fn d_single(_t: bool) -> Vec<(String,)> {
+    ["", "a", "|", "a|", "\"", "a\",", "(", ",)"].iter().map(|x| (x.to_string(),)).collect()
+}
